@@ -558,6 +558,120 @@ fn check_homonym_crates(renames: &'static str, link: &'static str, lang: Lang, p
     acc.outcomes.insert(report::fnv64(&format!("{}|{}", lang.name(), outs.len())));
 }
 
+
+// ---------- family: items renamed onto each other's Rust names ----------
+
+/// Programs in which the serde name of one item is the Rust name of another (a versioned type took over the old name):
+/// a reference must be rewritten exactly once, to the name its own target is emitted under. In-process (single-file and
+/// multi-file pipeline) and through the binary (file output and folder output).
+fn renamed_onto_each_other_family(rep: &mut Report) {
+    use crate::cli::{self, par_map, run_cli, s, Scratch};
+    // (program, source, [(holder field key, expected referenced name)])
+    let programs: Vec<(&str, &str, Vec<(&str, &str)>)> = vec![
+        (
+            "chain",
+            "#[typeshare]\n#[serde(rename = \"Item\")]\npub struct ItemV2 { pub v2: u32 }\n\n#[typeshare]\n#[serde(rename = \"LegacyItem\")]\npub struct Item { pub v1: u32 }\n\n#[typeshare]\npub struct Holder { pub fresh: ItemV2, pub old: Item, pub many: Vec<ItemV2>, pub maybe: Option<Item> }\n",
+            vec![("fresh", "Item"), ("old", "LegacyItem"), ("many", "Item"), ("maybe", "LegacyItem")],
+        ),
+        (
+            "swap",
+            "#[typeshare]\n#[serde(rename = \"Right\")]\npub struct Left { pub l: u32 }\n\n#[typeshare]\n#[serde(rename = \"Left\")]\npub struct Right { pub r: u32 }\n\n#[typeshare]\npub struct Holder { pub one: Left, pub two: Right, pub many: Vec<Left> }\n",
+            vec![("one", "Right"), ("two", "Left"), ("many", "Right")],
+        ),
+        (
+            "chain-of-three-enums-and-alias",
+            "#[typeshare]\n#[serde(rename = \"B\", tag = \"t\", content = \"c\")]\npub enum A { X(u32), Y }\n\n#[typeshare]\n#[serde(rename = \"C\")]\npub struct B { pub b: u32 }\n\n#[typeshare]\n#[serde(rename = \"D\")]\npub struct C { pub c: u32 }\n\n#[typeshare]\npub struct Holder { pub a: A, pub b: B, pub c: Vec<C> }\n",
+            vec![("a", "B"), ("b", "C"), ("c", "D")],
+        ),
+    ];
+    const MODES: [&str; 4] = ["in-process", "in-process-multi-file", "binary-file-output", "binary-folder-output"];
+    let mut jobs = Vec::new();
+    for (pi, _) in programs.iter().enumerate() {
+        for &lang in &ALL_LANGS {
+            for mode in MODES {
+                if mode.starts_with("binary") && !cli::bin_available() {
+                    continue;
+                }
+                jobs.push((pi, lang, mode));
+            }
+        }
+    }
+    let results = par_map(&jobs, report::threads(), |(pi, lang, mode)| -> Result<String, String> {
+        let src = programs[*pi].1;
+        match *mode {
+            "in-process" => refmodel::run_source(src, *lang, &Cfg::plain()).map(|ok| ok.text).map_err(|(f, _)| f.describe()),
+            "in-process-multi-file" => refmodel::run_source_in_crate(src, "app", *lang, &{ let mut c = Cfg::plain(); c.multi_file = true; c }).map(|ok| ok.text).map_err(|(f, _)| f.describe()),
+            _ => {
+                let sc = Scratch::new("c09ren");
+                sc.write("ws/app/src/lib.rs", src.as_bytes());
+                let mut args = cli::lang_args(*lang);
+                let folder = *mode == "binary-folder-output";
+                let out = if folder { sc.mkdir("out") } else { sc.path(&format!("types.{}", lang.ext())) };
+                args.extend([s(if folder { "-d" } else { "-o" }), out.to_string_lossy().into_owned(), sc.path("ws").to_string_lossy().into_owned()]);
+                let r = run_cli(&args, &sc.root, &[], cli::TIMEOUT);
+                if r.class() != "ok" {
+                    return Err(format!("{}: {}", r.class(), r.stderr.chars().take(300).collect::<String>()));
+                }
+                if folder {
+                    let snap = cli::snapshot(&out);
+                    snap.iter().find(|(k, _)| k.to_lowercase().contains("app")).map(|(_, v)| String::from_utf8_lossy(v).into_owned()).ok_or_else(|| format!("no file for crate app among {:?}", snap.keys().collect::<Vec<_>>()))
+                } else {
+                    std::fs::read_to_string(&out).map_err(|e| e.to_string())
+                }
+            }
+        }
+    });
+    let mut judged = 0u64;
+    let mut outcomes = BTreeSet::new();
+    for ((pi, lang, mode), res) in jobs.iter().zip(results.iter()) {
+        let (pname, src, expect) = &programs[*pi];
+        let text = match res {
+            Ok(t) => t,
+            Err(e) => {
+                rep.vios.add(Violation { sig: format!("C09|{}|renamed-onto-each-other|{pname}|{mode}|no-output", lang.name()), detail: json!({"source": src, "mode": mode, "failure": e}) });
+                continue;
+            }
+        };
+        let of = match crate::extract::extract(*lang, text) {
+            Ok(of) => of,
+            Err(e) => {
+                rep.vios.add(Violation { sig: format!("C09|{}|renamed-onto-each-other|{pname}|{mode}|output-unreadable", lang.name()), detail: json!({"source": src, "mode": mode, "output": text, "reader": e.msg()}) });
+                continue;
+            }
+        };
+        let names = collect(&of, *lang);
+        let Some(holder) = of.structs().find(|st| st.name == "Holder") else {
+            rep.vios.add(Violation { sig: format!("C09|{}|renamed-onto-each-other|{pname}|{mode}|holder-missing", lang.name()), detail: json!({"source": src, "mode": mode, "output": text}) });
+            continue;
+        };
+        for (key, want) in expect {
+            judged += 1;
+            let got: Vec<String> = holder
+                .fields
+                .iter()
+                .find(|f| f.wire == *key)
+                .map(|f| {
+                    let mut v = Vec::new();
+                    tt_names(&f.ty, &holder.generics, *lang, "field", "Holder", &mut v);
+                    v.into_iter().map(|x| x.0).collect()
+                })
+                .unwrap_or_default();
+            let defined = names.defined.iter().any(|d| d.0 == *want);
+            outcomes.insert(format!("{}|{}", lang.name(), got == vec![want.to_string()]));
+            if got != vec![want.to_string()] || !defined {
+                rep.vios.add(Violation {
+                    sig: format!("C09|{}|renamed-onto-each-other|{pname}|{mode}|field={key}|{}", lang.name(), if !defined { "target-definition-missing" } else { "reference-names-another-item" }),
+                    detail: json!({"source": src, "mode": mode, "output": text, "field": key, "expected_reference": want, "observed_reference": got, "defined": names.defined.iter().map(|d| d.0.clone()).collect::<Vec<_>>()}),
+                });
+            }
+        }
+    }
+    rep.cov_add("evaluations", judged);
+    rep.cov_add("traces_validated_against_impl", jobs.len() as u64);
+    rep.cov("family_renamed_onto_each_other", json!({"programs": programs.iter().map(|p| p.0).collect::<Vec<_>>(), "modes": MODES, "languages": 6, "runs": jobs.len(), "judgements": judged, "distinct_outcomes": outcomes.len(),
+        "oracle": "each Holder field names exactly the item its Rust type is emitted as (the rename applied once), and that definition exists"}));
+}
+
 fn controls(rep: &mut Report) {
     let canned = "typealias PAliasO = String\n\n@Serializable\ndata class PRef (\n\tval r: PAliasR\n)\n";
     match crate::extract::extract(Lang::Kotlin, canned) {
@@ -644,6 +758,7 @@ pub fn run(args: &[String]) -> i32 {
         );
         merge(&mut rep, "same_identifier_in_two_crates", accs, &stats, json!({"serde_rename": HOMONYM_RENAMES, "link_between_crates": HOMONYM_LINKS, "reference_positions": ["field", "Vec", "Option", "map value", "payload", "struct-variant field", "Box", "alias"], "languages": 6, "configs": 2, "mode": "multi-file"}));
     }
+    renamed_onto_each_other_family(&mut rep);
     let amb_k = if rep.thorough() { 3 } else { 2 };
     super::common::ambient_family(&mut rep, "ambient_variations", amb_k + 1, |ch| { gen(ch); }, |ch, acc| {
         let c = gen(ch);
